@@ -12,6 +12,7 @@ open ZodbModel ZodbModel.Undo
 structure St where
   fs : FS := {}
   pend : Log := []          -- a log being loaded with `log.*` ops (newest first)
+  ltid : Nat := 0           -- `_ltid`: survives a pack that drops the newest transaction from the file
 
 def rcVal : Bytes → Option Nat
   | [1, hi, lo] => some (hi * 256 + lo)
@@ -93,9 +94,10 @@ def step (s : St) (toks : List String) : St × String :=
   | ["finish"] =>
     match s.fs.txn with
     | none => (s, "err:no-txn")
-    | some st => if st.failed then (s, "err:failed-undo") else ({ s with fs := s.fs.finish }, "ok")
+    | some st =>
+      if st.failed then (s, "err:failed-undo") else ({ s with fs := s.fs.finish, ltid := st.tid }, "ok")
   | ["abort"] => ({ s with fs := s.fs.abort }, "ok")
-  | ["last"] => (s, match s.fs.log with | [] => hx 0 | t :: _ => hx t.tid)
+  | ["last"] => (s, hx s.ltid)
   | ["load", o] =>
     match natOfHex o with
     | some o => (s, match load F o with
@@ -151,9 +153,9 @@ def step (s : St) (toks : List String) : St × String :=
           "ok")
        | none => (s, "bad-op"))
     | _, _, _, _ => (s, "bad-op")
-  | ["log.end"] =>
+  | ["log.end", lt] =>
     let fs : FS := { log := s.pend }
-    ({ fs := fs, pend := [] },
+    ({ fs := fs, pend := [], ltid := (natOfHex lt).getD 0 },
      "inv=" ++ (if invB fs.log then "1" else "0") ++ " n=" ++ toString (flat fs.log).length)
   | _ => (s, "bad-op")
 
